@@ -203,6 +203,10 @@ func (d docGen) doc(trap bool) interface{} {
 	if rn(25) == 24 {
 		return d.bigDoc()
 	}
+	if rn(120) == 119 {
+		// very deep and narrow: depth guards and recursion limits (64, 100, 128, 256 levels)
+		return d.deepChain([]int{20, 65, 70, 101, 130, 260}[rn(6)])
+	}
 	switch rn(6) {
 	case 0: // array of members
 		n := rn(7)
